@@ -395,10 +395,16 @@ func (self Value) interfaceAt(opts *Options, depth int) (interface{}, error) {
 
 		var ret1 map[proto.FieldNumber]interface{}
 		var ret2 map[int]interface{}
+		// a field takes at least 2 bytes (tag and value):
+		// don't reserve room for more fields than the bytes of this message can hold
+		size := DefaultNodeSliceCap
+		if n := self.l / 2; n < size {
+			size = n
+		}
 		if opts.MapStructById {
-			ret1 = make(map[proto.FieldNumber]interface{}, DefaultNodeSliceCap)
+			ret1 = make(map[proto.FieldNumber]interface{}, size)
 		} else {
-			ret2 = make(map[int]interface{}, DefaultNodeSliceCap)
+			ret2 = make(map[int]interface{}, size)
 		}
 
 		for it.HasNext() {
